@@ -26,6 +26,10 @@ Variables fadd fmul fdiv : F -> F -> F.
 Variable fabs : F -> F.
 Variable fmax : F -> F -> F.           (* numpy max (reduction step) *)
 Variable fis0 : F -> bool.             (* float(factor) == 0.0 *)
+Variable fguard : F -> F.              (* the divisor used for `p_array / factor`: the factor itself in the
+                                          pinned code, `factor + (factor == 0)` with the proposed fix *)
+Variable eisninf : E -> bool.          (* `e == float("-inf")` guard of the proposed fix (constantly false
+                                          in the pinned code) *)
 Variable e0 : E.                       (* exponent 0.0 *)
 Variable eninf : E.                    (* float("-inf") *)
 Variable elog : F -> E.                (* log10 *)
@@ -128,7 +132,7 @@ Fixpoint run (strip cz : bool) (prog : list instr) (temps : temps_t) (e : E)
                 let factor := maxabs pa in
                 if cz && fis0 factor then ZeroExit
                 else
-                  let pa' := divs pa factor in
+                  let pa' := divs pa (fguard factor) in
                   run strip cz rest (tset p pa' t2) (eadd e (elog factor)) (Some pa')
               else run strip cz rest (tset p pa t2) e (Some pa)
           end
@@ -157,7 +161,7 @@ Fixpoint trace (prog : list instr) (temps : temps_t) (e : E) : list (F * (E * F)
           | Some (xr, t2) =>
               let pa := b xl xr in
               let factor := maxabs pa in
-              let pa' := divs pa factor in
+              let pa' := divs pa (fguard factor) in
               let e' := eadd e (elog factor) in
               (factor, (e', maxabs pa')) :: trace rest (tset p pa' t2) e'
           end
@@ -223,7 +227,8 @@ Definition add_maybe (x y : sval) : sval :=
       let '(xm, xe) := match x with Plain m => (m, e0) | Strip m e => (m, e) end in
       let '(ym, ye) := match y with Plain m => (m, e0) | Strip m e => (m, e) end in
       let e := emax xe ye in
-      Strip (madd (mscale_r xm (epow xe e)) (mscale_r ym (epow ye e))) e
+      if eisninf e then Strip (madd xm ym) e      (* proposed fix: both terms exactly zero *)
+      else Strip (madd (mscale_r xm (epow xe e)) (mscale_r ym (epow ye e))) e
   end.
 
 (* functools.reduce(add_maybe_exponent_stripped, slices)  (no sliced output index) *)
@@ -279,7 +284,8 @@ Definition gather_stack (chunk0d : bool) (chunks : list (nat * sval)) : option (
           | None => None
           | Some em =>
               let res := map (fun kc => (fst kc, match snd kc with
-                                                 | Strip m e => mscale_r m (epow e em)
+                                                 | Strip m e => if eisninf em then m   (* proposed fix *)
+                                                                else mscale_r m (epow e em)
                                                  | Plain m => m end)) chunks in
               (* np.stack: a Python scalar next to arrays that are not 0-d raises; chunk0d = the
                  chunks are 0-d, i.e. every output index is sliced *)
@@ -314,15 +320,18 @@ Definition contract_stack (strip cz chunk0d : bool) prog (keys : list nat) slice
    with strip_exponent the `+` is Python tuple concatenation, so the yielded object is
    only a (mantissa, exponent) pair when there is a single slice per chunk.  The model
    returns None where the code yields such a malformed tuple. *)
-Definition output_chunk (l : list sval) : option sval :=
+Definition output_chunk (use_add_maybe : bool) (l : list sval) : option sval :=
   match l with
   | [] => None
   | [s] => Some s
+  | s :: rest => if use_add_maybe then Some (fold_left add_maybe rest s) else   (* proposed fix *)
+  match l with
   | Plain m :: rest =>
       fold_left (fun acc s => match acc, s with
                               | Some (Plain a), Plain b => Some (Plain (madd a b))
                               | _, _ => None end) rest (Some (Plain m))
-  | Strip _ _ :: _ => None
+  | _ => None
+  end
   end.
 
 (* interface._build_expression, single input: fn_stripped = (fn(x), 0.0) *)
@@ -436,18 +445,24 @@ Definition xlog (x : xq) : xq :=
   | _, _ => false
   end.
 
-(* exponent 0.0 is antilog 1, -inf is antilog 0, e + log10 f is E*f, 10**(a-b) is A/B *)
+(* exponent 0.0 is antilog 1, -inf is antilog 0, e + log10 f is E*f, 10**(a-b) is A/B.
+   `patched` selects the semantics of the proposed fix (proposed_fixes/C19_strip-zero-slice.patch):
+   divisor factor + (factor == 0), and the `== -inf` guards. *)
+Definition xguard (patched : bool) (f : xq) : xq :=
+  if patched then xadd f (if xis0 f then XF 1 else XF 0) else f.
+Definition xisninf (patched : bool) (e : xq) : bool := patched && xis0 e.   (* antilog 0 *)
 Definition X_bil := bil_apply xq (XF 0) xadd xmul.
 Definition X_lin := lin_apply xq (XF 0) xadd.
-Definition X_run := run xq xq (XF 0) xdiv xabs xmax xis0 xlog xmul.
-Definition X_core := contract_core xq xq (XF 0) xdiv xabs xmax xis0 (XF 1) xlog xmul.
-Definition X_trace (prog : list (instr xq)) (arrays : list (list xq)) :=
-  trace xq xq (XF 0) xdiv xabs xmax xlog xmul prog (combine (seq 0 (length arrays)) arrays) (XF 1).
-Definition X_add := add_maybe xq xq xadd xmul (XF 1) pymax xdiv.
-Definition X_sum := contract_sum xq xq (XF 0) xadd xmul xdiv xabs xmax xis0 (XF 1) (XF 0) xlog xmul pymax xdiv.
-Definition X_stack := contract_stack xq xq (XF 0) xadd xmul xdiv xabs xmax xis0 (XF 1) (XF 0) xlog xmul pymax xdiv.
-Definition X_slices := contract_slices xq xq (XF 0) xdiv xabs xmax xis0 (XF 1) (XF 0) xlog xmul.
-Definition X_chunk := output_chunk xq xq xadd.
+Definition X_core (pt : bool) := contract_core xq xq (XF 0) xdiv xabs xmax xis0 (xguard pt) (XF 1) xlog xmul.
+Definition X_trace (pt : bool) (prog : list (instr xq)) (arrays : list (list xq)) :=
+  trace xq xq (XF 0) xdiv xabs xmax (xguard pt) xlog xmul prog (combine (seq 0 (length arrays)) arrays) (XF 1).
+Definition X_add (pt : bool) := add_maybe xq xq xadd xmul (xisninf pt) (XF 1) pymax xdiv.
+Definition X_sum (pt : bool) :=
+  contract_sum xq xq (XF 0) xadd xmul xdiv xabs xmax xis0 (xguard pt) (xisninf pt) (XF 1) (XF 0) xlog xmul pymax xdiv.
+Definition X_stack (pt : bool) :=
+  contract_stack xq xq (XF 0) xadd xmul xdiv xabs xmax xis0 (xguard pt) (xisninf pt) (XF 1) (XF 0) xlog xmul pymax xdiv.
+Definition X_slices (pt : bool) := contract_slices xq xq (XF 0) xdiv xabs xmax xis0 (xguard pt) (XF 1) (XF 0) xlog xmul.
+Definition X_chunk (pt : bool) := output_chunk xq xq xadd xmul (xisninf pt) (XF 1) pymax xdiv pt.
 Definition X_wf := wf_prog xq.
 
 (* literals used by the generated cases: n/d *)
@@ -473,14 +488,18 @@ Definition R_lin := lin_apply R 0 Rplus.
 (* the R instance has no -inf: `eninf` is only used by sval_of ZeroExit, instantiated with 0
    and never reached by the theorems (they are about check_zero=False, or about runs that
    end in Done) *)
-Definition R_run := run R R 0 Rdiv Rabs Rmax ris0 log10 Rplus.
-Definition R_trace := trace R R 0 Rdiv Rabs Rmax log10 Rplus.
-Definition R_add := add_maybe R R Rplus Rmult 0 Rmax (fun a b => pow10 (a - b)).
+(* `g` is the divisor guard: the theorems hold for every g that is the identity on non-zero
+   factors -- the pinned code (g = id) and the proposed fix (g f = f + (f == 0)) alike *)
+Definition R_run (g : R -> R) := run R R 0 Rdiv Rabs Rmax ris0 g log10 Rplus.
+Definition R_trace (g : R -> R) := trace R R 0 Rdiv Rabs Rmax g log10 Rplus.
+Definition rguard_fix (f : R) : R := f + (if ris0 f then 1 else 0).
+Definition rnever (e : R) : bool := false.       (* R has no -inf *)
+Definition R_add := add_maybe R R Rplus Rmult rnever 0 Rmax (fun a b => pow10 (a - b)).
 Definition R_mscale_r := mscale_r R Rmult.
 Definition R_madd := madd R Rplus.
-Definition R_gather_sum := gather_sum R R Rplus Rmult 0 Rmax (fun a b => pow10 (a - b)).
-Definition R_gather_stack := gather_stack R R Rmult Rmax (fun a b => pow10 (a - b)).
-Definition R_group := group_chunks R R Rplus Rmult 0 Rmax (fun a b => pow10 (a - b)).
+Definition R_gather_sum := gather_sum R R Rplus Rmult rnever 0 Rmax (fun a b => pow10 (a - b)).
+Definition R_gather_stack := gather_stack R R Rmult rnever Rmax (fun a b => pow10 (a - b)).
+Definition R_group := group_chunks R R Rplus Rmult rnever 0 Rmax (fun a b => pow10 (a - b)).
 (* the value denoted by a slice result: mantissa * 10^exponent *)
 Definition R_value (s : sval R R) : mant R :=
   match s with Plain m => m | Strip m e => R_mscale_r m (pow10 e) end.
